@@ -238,7 +238,7 @@ Section WithCrypto.
             if negb (Bool.eqb (ld_bit ld) bit) then Ok (rev acc)
             else
               '(e, rest) <- lift_enc (dec_entry (ld_state ld)) ;;
-              scan_entries f bit rest ((e, ld_partial ld, 8 + ld_len ld) :: acc)
+              scan_entries f bit rest ((e, ld_partial ld, len buf - len rest) :: acc)
         end
     end.
 
